@@ -177,6 +177,10 @@ func (server *Server) ServeCodec(codec ServerCodec) {
 			})
 		}
 	}
+	// Drain the decode queue first: once it is closed no ServeRequest runs any more, so the
+	// wait for the handlers cannot be overtaken by a new wg.Add and nobody else touches the
+	// stream table or the other queues during the teardown below.
+	pipeline.Close()
 	wg.Wait()
 	server.mutex.Lock()
 	server.deleteCodec(codec)
@@ -189,7 +193,6 @@ func (server *Server) ServeCodec(codec ServerCodec) {
 		ctx.stream.Close()
 	}
 	readStream.Close()
-	pipeline.Close()
 }
 
 // deleteCodec closes the specified codec.
@@ -533,6 +536,10 @@ func (server *Server) listen(sock socket.Socket, address string, New NewServerCo
 			}
 			if err == io.EOF || err == io.ErrUnexpectedEOF {
 				if atomic.CompareAndSwapInt32(&svrctx.closed, 0, 1) {
+					// as in ServeCodec: drain the decode queue before waiting for the handlers
+					if svrctx.pipeline != nil {
+						svrctx.pipeline.Close()
+					}
 					svrctx.wg.Wait()
 					server.mutex.Lock()
 					delete(codecs, svrctx.codec)
@@ -549,9 +556,6 @@ func (server *Server) listen(sock socket.Socket, address string, New NewServerCo
 					}
 					if svrctx.readStream != nil {
 						svrctx.readStream.Close()
-					}
-					if svrctx.pipeline != nil {
-						svrctx.pipeline.Close()
 					}
 				}
 			}
